@@ -1,4 +1,5 @@
 import SV.Model.C11
+import SV.Model.PolyOps
 /-!
 `svdriver <property>`: reads one request per line on stdin, prints the model's response.
 Imports only the import-free `SV.Model.*` modules, so it links as a native executable.
@@ -8,6 +9,7 @@ open SV
 def dispatch (prop : String) : Option (String → String) :=
   match prop with
   | "C11" => some C11.Driver.handle
+  | "POLY" => some PolyOps.handle
   | _ => none
 
 partial def loop (h : IO.FS.Stream) (out : IO.FS.Stream) (f : String → String) : IO Unit := do
